@@ -10,6 +10,7 @@ import (
 	"io/ioutil"
 	"log"
 	"net"
+	"runtime"
 	"sync"
 	"syscall"
 	"time"
@@ -25,6 +26,9 @@ type verifMirrorCase struct {
 	Dst     string     `json:"dst"`
 	Port    int        `json:"port"`
 	Dgrams  [][]string `json:"dgrams"` // [source address hex (4 or 16 octets), payload hex]
+	// Burst > 1: that many datagrams are queued for the mirror goroutine BEFORE it gets to run (one P while they are queued),
+	// and only then are they looked for on the wire, in order
+	Burst int `json:"burst"`
 }
 
 type verifMirrorObs struct {
@@ -73,7 +77,7 @@ func verifMirror(raw []byte) interface{} {
 	panicked := make(chan string, 4)
 	startWorker := func() {
 		if c.Proto == "ipfix" {
-			chI = make(chan IPFIXUDPMsg, 4)
+			chI = make(chan IPFIXUDPMsg, 64)
 			go func(ch chan IPFIXUDPMsg) {
 				defer func() {
 					if r := recover(); r != nil {
@@ -83,7 +87,7 @@ func verifMirror(raw []byte) interface{} {
 				mirrorIPFIX(dst, c.Port, ch)
 			}(chI)
 		} else {
-			chS = make(chan SFUDPMsg, 4)
+			chS = make(chan SFUDPMsg, 64)
 			go func(ch chan SFUDPMsg) {
 				defer func() {
 					if r := recover(); r != nil {
@@ -96,7 +100,7 @@ func verifMirror(raw []byte) interface{} {
 	}
 	startWorker()
 	buf := make([]byte, 70000)
-	for _, d := range c.Dgrams {
+	feed := func(d []string) {
 		src, _ := hex.DecodeString(d[0])
 		payload, _ := hex.DecodeString(d[1])
 		ip := make(net.IP, len(src))
@@ -112,6 +116,8 @@ func verifMirror(raw []byte) interface{} {
 			b = append(b[:0], payload...)
 			chS <- SFUDPMsg{raddr, b}
 		}
+	}
+	observe := func() verifMirrorObs {
 		obs := verifMirrorObs{Status: "NONE"}
 		deadline := time.Now().Add(400 * time.Millisecond)
 	wait:
@@ -141,7 +147,31 @@ func verifMirror(raw []byte) interface{} {
 			default:
 			}
 		}
-		results = append(results, obs)
+		return obs
+	}
+	step := 1
+	if c.Burst > 1 && c.Burst <= 32 {
+		step = c.Burst
+	}
+	for i := 0; i < len(c.Dgrams); i += step {
+		group := c.Dgrams[i:]
+		if len(group) > step {
+			group = group[:step]
+		}
+		if step > 1 {
+			// all of the group is in the queue before the mirror goroutine runs again
+			time.Sleep(5 * time.Millisecond)
+			old := runtime.GOMAXPROCS(1)
+			for _, d := range group {
+				feed(d)
+			}
+			runtime.GOMAXPROCS(old)
+		} else {
+			feed(group[0])
+		}
+		for range group {
+			results = append(results, observe())
+		}
 	}
 	// pool integrity: every buffer now in a pool has that pool's size
 	foreign := 0
